@@ -12,10 +12,11 @@
 (***************************************************************************)
 EXTENDS Monitors, Json, IOUtils
 
-VARIABLES st, l, rej, done,     \* conformance: specification state, next line, first mismatch, finished
+VARIABLES st, l, rej, done,     \* conformance: specification state, next line, mismatches (first of each execution), finished
+          skip,                 \* after a mismatch: skip to the next execution ("cfg" line)
           tk, lm, bad           \* monitors: tracker, next line, findings <<property, line, why>> (first line per property)
 
-tvars == <<st, l, rej, done, tk, lm, bad>>
+tvars == <<st, l, rej, done, skip, tk, lm, bad>>
 
 TraceLog == ndJsonDeserialize(IOEnv.TRACE)
 Cfg == TraceLog[1]
@@ -34,7 +35,6 @@ TrVerbose == Cfg.verbose = 1
 TrInjCnt == Cfg.inj
 TrDefMask == Cfg.def
 
-NoRej == [line |-> 0, why |-> "", fields |-> {}, exp |-> <<>>, got |-> <<>>]
 
 CbFields  == {"m", "s", "j", "pre", "sid", "cact", "mact", "mia", "ctx", "self", "ev", "req", "cur", "pend", "plan", "acts", "mact2"}
 RetFields == {"op", "r", "pre", "act", "ia", "on", "prev", "pne", "pfirst", "plast", "plan"}
@@ -44,23 +44,32 @@ Diff(fields, o, e) == {f \in fields : o[f] # e[f]}
 ToActs(seq) == [i \in 1 .. Len(seq) |-> [k |-> seq[i].k, a |-> seq[i].a, b |-> seq[i].b, p |-> seq[i].p]]
 
 Reject(why, fields, exp, got) ==
-    /\ rej' = [line |-> l, why |-> why, fields |-> fields, exp |-> exp, got |-> got]
+    /\ rej' = IF Len(rej) < 6 THEN Append(rej, [line |-> l, why |-> why, fields |-> fields, exp |-> exp, got |-> got]) ELSE rej
+    /\ skip' = TRUE
     /\ UNCHANGED <<st, l, done, tk, lm, bad>>
 
-TInit == st = InitSt /\ l = 1 /\ rej = NoRej /\ done = FALSE /\ tk = TkInit /\ lm = 1 /\ bad = {}
+TInit == st = InitSt /\ l = 1 /\ rej = <<>> /\ done = FALSE /\ skip = FALSE /\ tk = TkInit /\ lm = 1 /\ bad = {}
 
 Silent ==
-    /\ AtInternal(st)
+    /\ ~skip /\ AtInternal(st)
     /\ st' = Internal(st)
-    /\ UNCHANGED <<l, rej, done, tk, lm, bad>>
+    /\ UNCHANGED <<l, rej, done, skip, tk, lm, bad>>
+
+\* after a mismatch the rest of that execution is not comparable: resume at the next "cfg" line
+Skip ==
+    /\ skip /\ l <= Len(TraceLog)
+    /\ IF TraceLog[l].e = "cfg"
+       THEN st' = InitSt /\ l' = l + 1 /\ skip' = FALSE
+       ELSE l' = l + 1 /\ UNCHANGED <<st, skip>>
+    /\ UNCHANGED <<rej, done, tk, lm, bad>>
 
 Consume ==
-    /\ ~AtInternal(st)
+    /\ ~skip /\ ~AtInternal(st)
     /\ l <= Len(TraceLog)
     /\ LET e == TraceLog[l] IN
        CASE e.e = "cfg" ->
                 IF Idle(st) /\ ~st.alive
-                THEN st' = InitSt /\ l' = l + 1 /\ UNCHANGED <<rej, done, tk, lm, bad>>
+                THEN st' = InitSt /\ l' = l + 1 /\ UNCHANGED <<rej, done, skip, tk, lm, bad>>
                 ELSE Reject("execution ended inside a call or with a live instance", {}, <<>>, e)
          [] e.e = "call" ->
                 LET o == Op(e.op, e.a, e.b, e.p) IN
@@ -68,7 +77,7 @@ Consume ==
                                          (IF AtCallback(st) THEN "a callback" ELSE "the return of the running call"), {},
                                          IF AtCallback(st) THEN Head(st.k) ELSE st.call, e)
                 ELSE IF ~InContract(st, o) THEN Reject("call outside the contract in the specification's state", {}, <<>>, e)
-                ELSE st' = CallStep(st, o).st /\ l' = l + 1 /\ UNCHANGED <<rej, done, tk, lm, bad>>
+                ELSE st' = CallStep(st, o).st /\ l' = l + 1 /\ UNCHANGED <<rej, done, skip, tk, lm, bad>>
          [] e.e = "cb" ->
                 IF ~AtCallback(st)
                 THEN Reject("callback delivered where the specification expects " \o
@@ -82,7 +91,7 @@ Consume ==
                               ELSE LET res == CbStep(st, acts)
                                        d   == Diff(CbFields, res.out, e)
                                    IN  IF d # {} THEN Reject("callback view / results differ", d, res.out, e)
-                                       ELSE st' = res.st /\ l' = l + 1 /\ UNCHANGED <<rej, done, tk, lm, bad>>
+                                       ELSE st' = res.st /\ l' = l + 1 /\ UNCHANGED <<rej, done, skip, tk, lm, bad>>
          [] e.e = "ret" ->
                 IF ~AtReturn(st)
                 THEN Reject("call returned where the specification expects " \o
@@ -91,10 +100,10 @@ Consume ==
                 ELSE LET res == RetStep(st)
                          d   == Diff(RetFields, res.out, e)
                      IN  IF d # {} THEN Reject("observation at return differs", d, res.out, e)
-                         ELSE st' = res.st /\ l' = l + 1 /\ UNCHANGED <<rej, done, tk, lm, bad>>
+                         ELSE st' = res.st /\ l' = l + 1 /\ UNCHANGED <<rej, done, skip, tk, lm, bad>>
          [] OTHER -> Reject("unexpected event (crash / runaway / truncated trace)", {}, <<>>, e)
 
-ConfDone == rej # NoRej \/ (l > Len(TraceLog) /\ ~AtInternal(st))
+ConfDone == l > Len(TraceLog) /\ (skip \/ ~AtInternal(st))
 
 \* monitors run after conformance has finished, over the same lines
 MonStep ==
@@ -105,21 +114,22 @@ MonStep ==
        IN  /\ tk' = tk2
            /\ lm' = lm + 1
            /\ bad' = bad \cup {<<x[1], lm, x[2]>> : x \in {y \in f : ~\E b \in bad : b[1] = y[1]}}
-    /\ UNCHANGED <<st, l, rej, done>>
+    /\ UNCHANGED <<st, l, rej, done, skip>>
 
 Finish ==
     /\ ~done /\ ConfDone /\ lm > Len(TraceLog)
     /\ done' = TRUE
-    /\ IF rej # NoRej
-       THEN PrintT(<<"TRACE-REJECTED", rej.line, rej.why, rej.fields, "EXPECTED", rej.exp, "GOT", rej.got>>)
-       ELSE IF Idle(st)
-            THEN PrintT(<<"TRACE-ACCEPTED", Len(TraceLog)>>)
-            ELSE PrintT(<<"TRACE-REJECTED", l, "trace ends inside a call", {}, "EXPECTED",
-                          IF AtCallback(st) THEN Head(st.k) ELSE st.call, "GOT", <<>>>>)
+    /\ \A q \in 1 .. Len(rej) :
+          PrintT(<<"TRACE-REJECTED", rej[q].line, rej[q].why, rej[q].fields, "EXPECTED", rej[q].exp, "GOT", rej[q].got>>)
+    /\ IF ~skip /\ ~Idle(st)
+       THEN PrintT(<<"TRACE-REJECTED", l, "trace ends inside a call", {}, "EXPECTED",
+                     IF AtCallback(st) THEN Head(st.k) ELSE st.call, "GOT", <<>>>>)
+       ELSE TRUE
+    /\ IF rej = <<>> /\ ~skip /\ Idle(st) THEN PrintT(<<"TRACE-ACCEPTED", Len(TraceLog)>>) ELSE TRUE
     /\ PrintT(<<"MONITOR-FINDINGS", bad>>)
-    /\ UNCHANGED <<st, l, rej, tk, lm, bad>>
+    /\ UNCHANGED <<st, l, rej, skip, tk, lm, bad>>
 
-TNext == \/ (~ConfDone /\ (Silent \/ Consume))
+TNext == \/ (~ConfDone /\ (Silent \/ Consume \/ Skip))
          \/ MonStep
          \/ Finish
 
